@@ -45,6 +45,17 @@ MUTANTS = [
 ]
 
 
+# Negative controls: renderings that differ from the pinned one only in what C18 does NOT promise (separators,
+# brackets, spacing, line breaks).  The check must stay silent on them (exit 0): they guard against an oracle
+# that demands more than the property states.
+CONTROLS = [
+    ("C18", "Dual: no spaces around +, a space before the symbol", "src/dual.rs", 'write!(f, "{} + {}ε", self.re, self.eps)', 'write!(f, "{}+{} ε", self.re, self.eps)'),
+    ("C18", "vector parts in parentheses separated by semicolons", "src/derivative.rs", 'write!(f, "[{}]", x.join(", "))?', 'write!(f, "({})", x.join("; "))?'),
+    ("C18", "HyperHyperDual: one part per line", "src/hyperhyperdual.rs", '"{} + {}ε1 + {}ε2 + {}ε3 + {}ε1ε2 + {}ε1ε3 + {}ε2ε3 + {}ε1ε2ε3"', '"{}\\n + {}ε1\\n + {}ε2\\n + {}ε3\\n + {}ε1ε2\\n + {}ε1ε3\\n + {}ε2ε3\\n + {}ε1ε2ε3"'),
+    ("C18", "optional parts joined with a comma instead of a plus", "src/derivative.rs", '            write!(f, " + ")?;', '            write!(f, ", ")?;'),
+]
+
+
 def sh(cmd):
     return subprocess.run(cmd, capture_output=True, text=True)
 
@@ -95,8 +106,26 @@ def main():
                 print("     " + r.stderr.strip().splitlines()[-1][:200] if r.stderr.strip() else "")
         finally:
             sh(["git", "-C", REPO, "checkout", "--", "."])
+    for prop, name, path, old, new in CONTROLS:
+        if which not in (prop, "all"):
+            continue
+        full = f"{REPO}/{path}"
+        try:
+            src = open(full, encoding="utf-8").read()
+            if src.count(old) != 1:
+                print(f"SKIP control {name}: anchor text occurs {src.count(old)} times")
+                ok = False
+                continue
+            open(full, "w", encoding="utf-8").write(src.replace(old, new))
+            r = sh(["/verif/check.sh", prop, "quick"])
+            good = r.returncode == 0 and "VIOLATION" not in r.stdout
+            ok &= good
+            line = next((l for l in r.stdout.splitlines() if l.startswith("  ")), "")
+            print(f"{'ok  ' if good else 'FALSE ALARM'} {prop} control (must pass): {name}: exit {r.returncode} {line[:160] if not good else ''}")
+        finally:
+            sh(["git", "-C", REPO, "checkout", "--", "."])
     sh(["rm", "-rf", "/verif/replays"])
-    print("sensitivity:", "every mutant detected" if ok else "NOT all detected")
+    print("sensitivity:", "every mutant detected, every control silent" if ok else "NOT as expected")
     sys.exit(0 if ok else 1)
 
 
